@@ -23,8 +23,13 @@ def renderItem : Item → Str
 
 def renderItems (items : List Item) : Str := (items.map renderItem).flatten
 
-/-- a parameter the MSD layer keeps intact: none of `# : ; \ /` inside -/
-def CleanParam (p : Str) : Prop := ∀ c ∈ p, c ≠ '#' ∧ c ≠ ':' ∧ c ≠ ';' ∧ c ≠ '\\' ∧ c ≠ '/'
+/-- no `//` inside -/
+def NoCmt : Str → Prop
+  | c :: d :: t => ¬(c = '/' ∧ d = '/') ∧ NoCmt (d :: t)
+  | _ => True
+
+/-- a parameter the MSD layer keeps intact: none of `# : ; \` and no `//` inside (a single `/` is fine) -/
+def CleanParam (p : Str) : Prop := (∀ c ∈ p, c ≠ '#' ∧ c ≠ ':' ∧ c ≠ ';' ∧ c ≠ '\\') ∧ NoCmt p
 
 def ItemOk : Item → Prop
   | .value ps => ps ≠ [] ∧ ∀ p ∈ ps, CleanParam p
@@ -71,28 +76,66 @@ theorem strip_comment (t b : Str) (h : '\n' ∉ t) :
   simp only [stripCommentsAux, and_self, if_true]
   exact strip_in_comment t b h
 
-/-- a value's text contains no '/' -/
-theorem value_no_slash (ps : List Str) (h : ∀ p ∈ ps, CleanParam p) :
-    ∀ c ∈ ('#' :: joinWith [':'] ps ++ [';']), c ≠ '/' := by
-  have hj : ∀ c ∈ joinWith [':'] ps, c ≠ '/' := by
-    induction ps with
-    | nil => intro c hc; simp [joinWith] at hc
-    | cons p t ih =>
-      cases t with
-      | nil => intro c hc; simp only [joinWith] at hc; exact (h p (by simp) c hc).2.2.2.2
-      | cons q r =>
-        intro c hc
-        simp only [joinWith, List.mem_append, List.mem_singleton] at hc
-        rcases hc with (hc | hc) | hc
-        · exact (h p (by simp) c hc).2.2.2.2
-        · rw [hc]; decide
-        · exact ih (fun x hx => h x (List.mem_cons_of_mem _ hx)) c hc
-  intro c hc
-  simp only [List.cons_append, List.mem_cons, List.mem_append, List.mem_singleton, List.not_mem_nil, or_false] at hc
-  rcases hc with rfl | hc | rfl
-  · decide
-  · exact hj c hc
-  · decide
+theorem noCmt_tail {c : Char} {t : Str} (h : NoCmt (c :: t)) : NoCmt t := by
+  cases t with
+  | nil => trivial
+  | cons d r => exact h.2
+
+/-- two comment-free texts joined by a character other than '/' -/
+theorem noCmt_append_sep : ∀ (a b : Str) (x : Char), NoCmt a → NoCmt b → x ≠ '/' → NoCmt (a ++ x :: b) := by
+  intro a
+  induction a with
+  | nil =>
+    intro b x _ hb hx
+    cases b with
+    | nil => trivial
+    | cons d r => exact ⟨fun h => hx h.1, hb⟩
+  | cons c t ih =>
+    intro b x ha hb hx
+    have iht := ih b x (noCmt_tail ha) hb hx
+    cases t with
+    | nil => exact ⟨fun h => hx h.2, iht⟩
+    | cons d r => exact ⟨ha.1, iht⟩
+
+/-- a comment-free text ending in a character other than '/' passes the comment stripper unchanged -/
+theorem strip_nocmt_snoc : ∀ (a : Str) (x : Char) (b : Str), NoCmt (a ++ [x]) → x ≠ '/' →
+    stripCommentsAux false (a ++ x :: b) = a ++ x :: stripCommentsAux false b := by
+  intro a
+  induction a with
+  | nil =>
+    intro x b _ hx
+    cases b with
+    | nil => rfl
+    | cons d t => simp [stripCommentsAux, hx]
+  | cons c r ih =>
+    intro x b h hx
+    have iht := ih x b (noCmt_tail h) hx
+    cases r with
+    | nil =>
+      have hcx : ¬(c = '/' ∧ x = '/') := fun e => hx e.2
+      simp only [List.nil_append, List.cons_append] at iht ⊢
+      simp only [stripCommentsAux, hcx, if_false]
+      rw [iht]
+    | cons d t =>
+      have hcd : ¬(c = '/' ∧ d = '/') := h.1
+      simp only [List.cons_append] at iht ⊢
+      simp only [stripCommentsAux, hcd, if_false]
+      rw [iht]
+
+theorem noCmt_joinColon : ∀ (t : List Str) (p : Str), NoCmt p → (∀ q ∈ t, NoCmt q) →
+    NoCmt (p ++ (t.map (fun q => ':' :: q)).flatten) := by
+  intro t
+  induction t with
+  | nil => intro p hp _; simpa using hp
+  | cons q r ih =>
+    intro p hp h
+    simp only [List.map_cons, List.flatten_cons, List.cons_append]
+    exact noCmt_append_sep p _ ':' hp (ih q (h q (by simp)) (fun x hx => h x (List.mem_cons_of_mem _ hx))) (by decide)
+
+theorem joinWith_colon (p : Str) (t : List Str) : joinWith [':'] (p :: t) = p ++ (t.map (fun q => ':' :: q)).flatten := by
+  induction t generalizing p with
+  | nil => simp [joinWith]
+  | cons q r ih => simp [joinWith, ih q]
 
 /-- comments are removed item by item: values and line breaks stay, a comment line leaves its line break -/
 def stripItem : Item → Str
@@ -113,7 +156,20 @@ theorem strip_items : ∀ (items : List Item), (∀ it ∈ items, ItemOk it) →
     cases it with
     | value ps =>
       simp only [renderItem, stripItem]
-      rw [strip_clean_prefix _ _ (value_no_slash ps hit.2), iht]
+      cases ps with
+      | nil => exact absurd rfl hit.1
+      | cons p0 ps' =>
+        rw [joinWith_colon]
+        have hX : NoCmt (p0 ++ (ps'.map (fun q => ':' :: q)).flatten) :=
+          noCmt_joinColon ps' p0 (hit.2 p0 (by simp)).2 (fun q hq => (hit.2 q (List.mem_cons_of_mem _ hq)).2)
+        have hA : NoCmt ('#' :: (p0 ++ (ps'.map (fun q => ':' :: q)).flatten)) :=
+          noCmt_append_sep [] _ '#' trivial hX (by decide)
+        have hA' : NoCmt (('#' :: (p0 ++ (ps'.map (fun q => ':' :: q)).flatten)) ++ [';']) :=
+          noCmt_append_sep _ [] ';' hA trivial (by decide)
+        have := strip_nocmt_snoc ('#' :: (p0 ++ (ps'.map (fun q => ':' :: q)).flatten)) ';'
+          ((t.map renderItem).flatten) hA' (by decide)
+        simp only [List.cons_append, List.append_assoc, List.nil_append] at this ⊢
+        rw [this, iht]
     | comment txt =>
       simp only [renderItem, stripItem]
       have : ('/' :: '/' :: txt ++ ['\n'] ++ (t.map renderItem).flatten) =
@@ -137,11 +193,12 @@ theorem scanMsd_param (st : Msd) (p : Str) (hin : st.inValue = true) (hp : Clean
   induction p generalizing st with
   | nil => simp [scanMsd]
   | cons c t ih =>
-    have hc := hp c (by simp)
+    have hc := hp.1 c (by simp)
     have hstep : msdStep st c = { st with cur := c :: st.cur } := by
-      simp [msdStep, hin, hc.1, hc.2.1, hc.2.2.1, hc.2.2.2.1]
+      simp [msdStep, hin, hc.1, hc.2.1, hc.2.2.1, hc.2.2.2]
     simp only [scanMsd, List.foldl_cons] at ih ⊢
-    rw [hstep, ih ({ st with cur := c :: st.cur } : Msd) hin (fun x hx => hp x (List.mem_cons_of_mem _ hx))]
+    rw [hstep, ih ({ st with cur := c :: st.cur } : Msd) hin
+      ⟨fun x hx => hp.1 x (List.mem_cons_of_mem _ hx), noCmt_tail hp.2⟩]
     simp
 
 /-- the parameters after the first, each preceded by ':' -/
@@ -175,11 +232,6 @@ theorem scanMsd_params : ∀ (ps : List Str) (st : Msd), st.inValue = true → (
       have : (p :: t).reverse = last :: (before ++ [p]) := by simp [hr]
       rw [this]
       simp [List.map_append]
-
-theorem joinWith_colon (p : Str) (t : List Str) : joinWith [':'] (p :: t) = p ++ (t.map (fun q => ':' :: q)).flatten := by
-  induction t generalizing p with
-  | nil => simp [joinWith]
-  | cons q r ih => simp [joinWith, ih q]
 
 /-- one value `#p0:…:pk;` read from outside a value -/
 theorem scanMsd_value (st : Msd) (ps : List Str) (hout : st.inValue = false) (hne : ps ≠ []) (hp : ∀ p ∈ ps, CleanParam p) :
